@@ -12,12 +12,11 @@ CONSTANTS
   HasDeadline = TRUE
   Prime = TRUE
   MaxPub = 6
-  MaxRead = 3
+  MaxRead = 4
   MaxStall = 2
   MaxSweep = 3
   MaxLeave = 1
-  MaxPubB = 1
-  MaxCmd = 1
+  MaxPubB = 2
+  MaxCmd = 3
 INVARIANTS Quiescent QueueBound WholeUnits
 VIEW GView
-ACTION_CONSTRAINT Emit
